@@ -38,7 +38,7 @@ Definition committed_census : list census_row :=
    ("h2.rs", "handle_ping_frame", true, true);
    ("h2.rs", "handle_window_update_frame", true, false);
    ("h2.rs", "update_initial_window_size", true, false);
-   ("h2.rs", "reset_stream", false, true);
+   ("h2.rs", "reset_stream", true, true);
    ("h2.rs", "end_stream", true, true);
    ("h2.rs", "start_stream", true, false);
    ("mod.rs", "delay_close_for_frontend_flush", true, false);
